@@ -148,6 +148,14 @@ fn respond(line: &str) -> String {
             },
             None => "bad-op".into(),
         },
+        ["makeflags", x] => match dec(x) {
+            Some(x) => match redo::verif::verif_parse_makeflags(OsStr::from_bytes(&x)) {
+                Ok(None) => "absent".into(),
+                Ok(Some((a, b))) => format!("fds {} {}", a, b),
+                Err(_) => "invalid".into(),
+            },
+            None => "bad-op".into(),
+        },
         ["valid-line", x] => match dec(x).and_then(|b| String::from_utf8(b).ok()) {
             Some(x) => redo::verif::is_valid_log_line(&x).to_string(),
             None => "bad-op".into(),
